@@ -194,6 +194,9 @@ func (w *world) buildAin(s *aSpec, dests []types.DestEntry, fee *big.Int, o *sig
 type variant struct {
 	class   string
 	control bool
+	// conserve: a shape the rules could legitimately admit; admission alone proves nothing, the variant is
+	// judged by what the chain makes of it (runConserve)
+	conserve bool
 	s6      string // non-empty: the suspected short-ring class with this key suffix
 	build   func() (*types.UTXOTransaction, error)
 }
@@ -494,7 +497,91 @@ func (w *world) ainVariants(s *aSpec) []variant {
 			tx.RCTSig.OutPk[0].Mask = addH(tx.RCTSig.OutPk[0].Mask, two64)
 		}}),
 	}
+	// the account side split over two account inputs whose commitments add up to the original one (amounts
+	// a1 + a2, blinding factors cf1 + cf2 = cf): the commitment equation still balances; whether the account
+	// is debited a1 + a2 is decided by the ledger after the block (wallets only ever build one account input)
+	split := mk("ain/two-account-inputs-split", nil, nil, &signOpts{real: true, mid: func(tx *types.UTXOTransaction) {
+		a := accIn(tx)
+		units := new(big.Int).Div(a.Amount, unit)
+		if units.Cmp(big.NewInt(2)) < 0 {
+			return
+		}
+		u2 := new(big.Int).Add(big.NewInt(1), new(big.Int).Mod(new(big.Int).SetUint64(w.r.Uint64()), new(big.Int).Sub(units, big.NewInt(1))))
+		a2 := new(big.Int).Mul(u2, unit)
+		a1 := new(big.Int).Sub(a.Amount, a2)
+		cf2 := scalarOf(new(big.Int).SetUint64(w.r.Uint64() | 1))
+		cf1 := ringct.ScSub(lt.EcScalar(a.CF), lt.EcScalar(cf2))
+		in1 := &types.AccountInput{Nonce: a.Nonce, Amount: a1, CF: cf1, Commit: types.AmountCommit(new(big.Int).Div(a1, unit), cf1)}
+		in2 := &types.AccountInput{Nonce: a.Nonce, Amount: a2, CF: cf2, Commit: types.AmountCommit(u2, cf2)}
+		if w.r.Bool() {
+			in1, in2 = in2, in1
+		}
+		var ins []types.Input
+		for _, i := range tx.Inputs {
+			if i == types.Input(a) {
+				ins = append(ins, in1, in2)
+			} else {
+				ins = append(ins, i)
+			}
+		}
+		tx.Inputs = ins
+	}})
+	split.conserve = true
+	vs = append(vs, split)
 	return vs
+}
+
+// runConserve: the variant goes to the real mempool; if it is admitted the chain runs one block and the supply
+// (all accounts + hidden pool, LKC) must be what it was (the harness knows every hidden output it built).
+func (w *world) runConserve(z *byz, v variant) {
+	c := w.c
+	tx, err := v.build()
+	if err != nil {
+		c.Count("variant_not_buildable", 1)
+		c.Logf("%s: %v", v.class, err)
+		return
+	}
+	c.Count("conserve_variants", 1)
+	c.Count("class:"+v.class, 1)
+	_, blockOK, err := z.check(tx)
+	if err != nil {
+		c.Inconclusive("byzantine block: " + err.Error())
+		return
+	}
+	merr := w.p.Mempool.AddTx("", mustClone(tx))
+	if merr != nil {
+		c.Count("conserve_rejected_mempool", 1)
+		c.Count("mempool_reason:"+reason(merr), 1)
+		if blockOK {
+			c.Count("conserve_accepted_in_block_only_not_judged", 1)
+		}
+		return
+	}
+	c.Count("conserve_admitted", 1)
+	before := w.cur.totals()[lkc]
+	hb := w.hidden
+	res, err := w.step()
+	if err == nil {
+		err = w.observe()
+	}
+	if err != nil {
+		c.Inconclusive("commit of the admitted transaction: " + err.Error())
+		return
+	}
+	if z2, err := w.newByz(); err == nil {
+		*z = *z2
+	}
+	supplyBefore := new(big.Int).Add(before, hb)
+	supplyAfter := new(big.Int).Add(w.cur.totals()[lkc], w.hidden)
+	created := new(big.Int).Sub(supplyAfter, supplyBefore)
+	if created.Sign() != 0 || w.led.Unknown != 0 {
+		wit := witnessTx(v.class, tx)
+		wit["committed_at_height"] = res.Block.Height
+		wit["supply_before"], wit["supply_after"], wit["created"] = supplyBefore.String(), supplyAfter.String(), created.String()
+		wit["unknown_outputs"] = w.led.Unknown
+		wit["accepted_in_block_by_validator"] = blockOK
+		c.Violation("tamper-executed-supply-changed/"+v.class, fmt.Sprintf("a %s transaction was admitted and committed at height %d; LKC supply (all accounts + hidden pool) %v -> %v: %v created", v.class, res.Block.Height, supplyBefore, supplyAfter, created), wit)
+	}
 }
 
 // ---------------------------------------------------------------- the two entry points
@@ -722,6 +809,13 @@ func runTamper(c *core.Ctx) {
 	tampered, ctlOK := 0, 0
 	realOK := false
 	for _, v := range variants {
+		if v.conserve {
+			w.runConserve(z, v)
+			if c.Violated() {
+				return
+			}
+			continue
+		}
 		tx, err := v.build()
 		if err != nil {
 			c.Count("variant_not_buildable", 1)
